@@ -1368,6 +1368,20 @@ def handleJson (req : Json) : R Json := do
       let base ← asJ b
       let ms ← listF asMutation req "muts"
       pure (applyAll ms base == doc)
+  -- a written base file must be the document `docOf` denotes for the table it was written from
+  let writerAgree ←
+    match optFld req "written_from" with
+    | none => pure true
+    | some w => do
+      let obs ← listF asStr w "obs"
+      let samp ← listF asStr w "samp"
+      let grid ← listF (asList asRat) w "rows"
+      let mdOf := fun (ax : String) => (records doc ax).map (fun r => (getItem r "metadata").getD .null)
+      let sOf := fun (k : String) => match topLookup doc k with | some (.str s) => s | _ => ""
+      let wt : WTable := { obs, samp, omd := mdOf "rows", smd := mdOf "columns", grid,
+                           ttype := sOf "type", tableId := sOf "id", generatedBy := sOf "generated_by",
+                           date := sOf "date" }
+      pure (docOf wt == doc && wt.wfb dateOk)
   let mv := validateJson dateOk doc
   let ml := reportLinesJson dateOk doc
   let mload := loadJson doc
@@ -1378,9 +1392,10 @@ def handleJson (req : Json) : R Json := do
   let loadAgree := match load with
     | some l => l.ok == mload.isSome
     | none => true
-  let agree := applyAgree && mv == verdict && linesAgree && loadAgree
+  let agree := applyAgree && mv == verdict && linesAgree && loadAgree && writerAgree
   let what := (if applyAgree then [] else ["apply"]) ++ (if mv == verdict then [] else ["verdict"]) ++
-    (if linesAgree then [] else ["report_lines"]) ++ (if loadAgree then [] else ["load"])
+    (if linesAgree then [] else ["report_lines"]) ++ (if loadAgree then [] else ["load"]) ++
+    (if writerAgree then [] else ["writer_document"])
   pure (Json.mkObj (verdictToJson h ++ [("agree", .bool agree), ("differs", strsToJson what),
     ("model", Json.mkObj [("verdict", .str mv.name), ("nlines", toJson ml), ("exit", toJson (exitStatus mv)),
       ("corrupt", .bool (corrupt doc)), ("violated", strsToJson (violated doc)),
